@@ -69,6 +69,9 @@ type pauser struct {
 	// after-hook log (what was done), for step inference and the "work after close" check
 	afterLog []string
 	closedAt int // index into afterLog when Close returned (-1 = not yet)
+	// lock-point mode (lockpoint.go)
+	lpMode bool
+	lp     *lpGate
 }
 
 func newPauser(root string) *pauser {
@@ -127,6 +130,13 @@ func (p *pauser) relOf(path string) (string, bool) {
 
 func (p *pauser) Before(op, path, path2 string, n int64) {
 	if !p.on {
+		return
+	}
+	if p.lpMode {
+		p.lpBefore(op, path)
+		return
+	}
+	if op == "point" {
 		return
 	}
 	rel, ok := p.relOf(path)
